@@ -40,6 +40,8 @@ JOBS = {
     "enc-attr": ("encoder", "C(=O)N", {"attribute": True}),
     "enc-oddfused-a": ("encoder", "c12c3ccc1cc2ccc3", {}),            # greedy matching is not perfect: augmentation runs
     "enc-oddfused-b": ("encoder", "c1cc2ccc3ccc1c23", {}),
+    "dec-P": ("decoder", "[C][P][=O][=O]", {}),
+    "dec-S": ("decoder", "[O][=S][=O][=O]", {}),
     "enc-two-rings-a": ("encoder2", ("C1CC1", "N1CCCCCCCCCCCCCCCCCC1"), {}),      # two calls in one thread, growing index values
     "enc-two-rings-b": ("encoder2", ("O1CCCCC1", "C(CCCCCCCCCCCCCCCCCCCCC)N"), {}),
     "dec-short-a": ("decoder", "[Ge]", {}),
@@ -79,6 +81,14 @@ def plan(tier, seed):
         for first in (0, 1):
             for c in range(NCHUNK):
                 tasks.append(("pairs/instruction/bound1", ("b1", p, first, c, NCHUNK, "instruction")))
+    pp = [("dec-P", "dec-S"), ("dec-S", "dec-S"), ("dec-Si-a", "dec-Si-b"), ("enc-ring-Si", "dec-S")]
+    scopes.append({"name": "pairs/line/bound1/after-history", "pairs": pp, "granularity": "LINE", "preemptions": "<= 1",
+                   "desc": "before every execution (after the restore) the library goes through a history: octet_rule is installed, P/S/Si "
+                           "symbols are decoded (warm caches), then the default table is installed; the table is fixed from then on"})
+    for p in pp:
+        for first in (0, 1):
+            for c in range(NCHUNK):
+                tasks.append(("pairs/line/bound1/after-history", ("h1", p, first, c, NCHUNK, "line")))
     tr = TRIPLES if thorough else TRIPLES[:1]
     scopes.append({"name": "triples/line/bound1", "triples": tr, "granularity": "LINE", "preemptions": "<= 1"})
     for t in tr:
@@ -160,11 +170,24 @@ def shared_signature():
     return tuple(sig)
 
 
+def restore_then_history():
+    H.restore()
+    _SF.set_semantic_constraints("octet_rule")
+    for x in ("[C][P][=O][=O]", "[O][=S][=O][=O]", "[Si][C][Si]", "[SiH1][C]"):
+        _SF.decoder(x)
+    _SF.encoder("C1CC1[Si]", strict=False)
+    _SF.get_semantic_robust_alphabet()
+    _SF.set_semantic_constraints("default")
+
+
+_RESET = [None]
+
+
 def run_one(names, segments, r, tail=None, scope="", post=True):
     jobs = [make_job(n) for n in names]
     import sys as _sys
     g0 = (_sys.getrecursionlimit(), _sys.getswitchinterval())
-    res, steps, trace = S.execute(jobs, segments, H.restore, tail)
+    res, steps, trace = S.execute(jobs, segments, _RESET[0] or H.restore, tail)
     g1 = (_sys.getrecursionlimit(), _sys.getswitchinterval())
     if g1 != g0:
         # interpreter-wide settings are shared by every thread: a call that leaves them changed has leaked state into
@@ -173,7 +196,7 @@ def run_one(names, segments, r, tail=None, scope="", post=True):
         _sys.setswitchinterval(g0[1])
         r.violation("interpreter-global-state-changed",
                     {"jobs": list(names), "segments": [list(s) for s in segments], "tail": list(tail) if tail else None,
-                     "granularity": S._INSTALLED[0]},
+                     "granularity": S._INSTALLED[0], "after_history": _RESET[0] is not None},
                     "(recursion limit, switch interval) was %r before and %r after this schedule" % (g0, g1))
     r.evaluations += 1
     r.transitions += len(trace) + 1
@@ -183,26 +206,26 @@ def run_one(names, segments, r, tail=None, scope="", post=True):
         k = [i for i, (a, b) in enumerate(zip(after, _POST_REF)) if a != b][0]
         r.violation("library-left-damaged-after-concurrent-calls",
                     {"jobs": list(names), "segments": [list(s) for s in segments], "tail": list(tail) if tail else None,
-                     "granularity": S._INSTALLED[0]},
+                     "granularity": S._INSTALLED[0], "after_history": _RESET[0] is not None},
                     "after this schedule %s(%r) returns %r; on a fresh library (and after every serial run) it returns %r" % (
                         POST_PROBES[k][0], POST_PROBES[k][1], after[k], _POST_REF[k]))
     if any(isinstance(x, tuple) and x and x[0] == "hang" for x in res):
         bad = [i for i, x in enumerate(res) if isinstance(x, tuple) and x and x[0] == "hang"][0]
         r.violation("hang-under-schedule:" + JOBS[names[bad]][0],
                     {"jobs": list(names), "segments": [list(s) for s in segments], "tail": list(tail) if tail else None,
-                     "granularity": S._INSTALLED[0]},
+                     "granularity": S._INSTALLED[0], "after_history": _RESET[0] is not None},
                     "thread %d (%s %r) did not terminate under this schedule" % (bad, JOBS[names[bad]][0], JOBS[names[bad]][1]))
         return res, steps
     if list(res) != want:
         # reproduce twice
-        again = [S.execute([make_job(n) for n in names], segments, H.restore, tail) for _ in range(2)]
+        again = [S.execute([make_job(n) for n in names], segments, _RESET[0] or H.restore, tail) for _ in range(2)]
         if not (again[0][0] == again[1][0] == res and again[0][1] == again[1][1] == steps):
             raise RuntimeError("HARNESS: schedule %r of %r does not replay deterministically: %r / %r / %r" % (
                 segments, names, (res, steps), again[0][:2], again[1][:2]))
         bad = [i for i in range(len(names)) if res[i] != want[i]][0]
         r.violation("concurrent-result-differs:" + JOBS[names[bad]][0],
                     {"jobs": list(names), "segments": [list(s) for s in segments], "tail": list(tail) if tail else None,
-                     "granularity": S._INSTALLED[0]},
+                     "granularity": S._INSTALLED[0], "after_history": _RESET[0] is not None},
                     "thread %d (%s %r) returned %r under this schedule but %r when run alone" % (
                         bad, JOBS[names[bad]][0], JOBS[names[bad]][1], res[bad], want[bad]))
     else:
@@ -217,6 +240,9 @@ def run(task):
     S.install(gran)
     r = Result()
     n = len(names)
+    _RESET[0] = restore_then_history if kind == "h1" else None
+    if kind == "h1":
+        kind = "b1"
     if kind in ("b1", "b2"):
         other = 1 - first
         # bound 0 from this starting thread (gives the event count of `first` when it starts on a cold library)
@@ -251,6 +277,7 @@ def run(task):
             for perm in itertools.permutations(range(n)):
                 run_one(names, [(perm[0], None)], r, tail=list(perm[1:]))
             r.sample({"scope": scope, "jobs": [JOBS[x][:2] for x in names], "events_per_thread_serial": list(steps0)}, 1)
+    _RESET[0] = None
     return r
 
 
@@ -258,5 +285,6 @@ def replay(case):
     worker_init()
     S.install(case.get("granularity") or "line")
     r = Result()
+    _RESET[0] = restore_then_history if case.get("after_history") else None
     run_one(tuple(case["jobs"]), [tuple(s) for s in case["segments"]], r, tail=case.get("tail"))
     return [(sig, v[0]["detail"]) for sig, v in r.viol.items()]
